@@ -396,6 +396,28 @@ func c20(c *Ctx) {
 				c.R.Check(cfgx.InstrReaches(st, ap[0], outerBack), load.FuncName(fn)+": CABundle #"+itoa(n)+" before apply", c.pos(st.Pos()), "injected before the object is applied", "the CA bundle is set after the object was applied")
 			}
 		}
+		if it.typ == "WebhookConfigurations" {
+			// every webhook entry of every configuration gets the bundle: no iteration of the
+			// per-webhook loops skips the store
+			for _, b := range fn.Blocks {
+				for _, in := range b.Instrs {
+					st, ok := in.(*ssa.Store)
+					if !ok {
+						continue
+					}
+					if _, p, okp := flow.AccessPath(st.Addr); !okp || !strings.HasSuffix(p, "CABundle") {
+						continue
+					}
+					l := cfgx.LoopOf(st.Block())
+					if l == nil || l[ap[0].Block()] {
+						c.R.Bad(load.FuncName(fn)+": CABundle per webhook", c.pos(st.Pos()), "the CA bundle store is not inside a loop over the configuration's webhooks")
+						continue
+					}
+					by, w := cfgx.LoopBypass(l, map[*ssa.BasicBlock]bool{st.Block(): true}, nil, c.posf())
+					c.R.Check(!by, load.FuncName(fn)+": CABundle for every webhook ("+strings.TrimSuffix(strings.TrimPrefix(fullType(flow.Root(st.Addr)), "*k8s.io/api/admissionregistration/v1."), "")+")", c.pos(st.Pos()), "every webhook entry gets the bundle", "a webhook entry can be skipped when the CA bundle is injected", w...)
+				}
+			}
+		}
 		if n < it.fields {
 			c.R.Bad(load.FuncName(fn)+": CABundle stores", c.pos(fn.Pos()), "expected "+itoa(it.fields)+" CA bundle injection site(s), found "+itoa(n))
 		}
@@ -449,6 +471,20 @@ func c20(c *Ctx) {
 				}
 			}
 			c.R.Check(okConv, load.FuncName(fn)+": conversion CRD needs a bundle", c.pos(fn.Pos()), "a CRD with webhook conversion is not applied without a CA bundle", "a CRD with webhook conversion can be applied without a CA bundle")
+			// ... and always gets the current one: every path from "conversion strategy is Webhook"
+			// to the Apply passes a CABundle store (also when the manifest already has a clientConfig)
+			through := map[*ssa.BasicBlock]bool{}
+			for _, b := range fn.Blocks {
+				for _, in := range b.Instrs {
+					if st, ok := in.(*ssa.Store); ok {
+						if _, p, okp := flow.AccessPath(st.Addr); okp && strings.HasSuffix(p, "CABundle") {
+							through[b] = true
+						}
+					}
+				}
+			}
+			skip, w := cfgx.ReachesAvoidingBlocks(conv, ap[0].Block(), through, cfgx.BackEdges(fn), c.posf())
+			c.R.Check(!skip && len(conv) > 0 && len(through) > 0, load.FuncName(fn)+": conversion CRD always gets the bundle", c.pos(ap[0].Pos()), "every webhook-conversion CRD is applied with the bundle of this run", "a CRD with webhook conversion can reach Apply without the current CA bundle being stored (e.g. when its manifest already carries a clientConfig)", w...)
 		}
 	}
 }
